@@ -81,7 +81,10 @@ class DescribeGlobal(s_enum.StrEnum):
     Roles = 'ROLES'
 
     def to_edgeql(self) -> str:
-        return self.value
+        if self is DescribeGlobal.DatabaseConfig:
+            return 'CURRENT BRANCH CONFIG'
+        else:
+            return self.value
 
 
 class Base(ast.AST):
